@@ -56,8 +56,8 @@ class C18(PureCheck):
     rule = ("(a) get_cursor_position on a scripted in_stream: reports with row/col in {1,9,10,123,65535} in 7-bit and 8-bit "
             "CSI form, preceded by every string of length <=4 over {x, ESC, [, 1, ;, R, newline} that contains no complete "
             "report (quick: all <=3 + sampled 4), plus long bursts (40..1000 characters) and non-ASCII characters ahead of the report on utf-8 and latin-1 streams, followed by trailing input, with 0..3 OSError faults at chosen read attempts, "
-            "with and without extra_bytes_callback; (b) get_cursor_vertical_diff after a real render (arrays shorter than / as tall as / taller than the terminal, cursor on the first, second, last array row) followed by a movement of -1..2 rows, and with top_usable_row in -1..4, last cursor row "
-            "None/0..4, 1..3 successive reported rows 0..5 and a nested call injected during the first or second query. "
+            "with and without extra_bytes_callback (given to the constructor or assigned afterwards), after earlier queries on the same window that did or did not find input ahead of their report, reports shaped like modified function keys (row 1/2, columns 2..8); (b) get_cursor_vertical_diff after a real render (arrays shorter than / as tall as / taller than the terminal, cursor on the first, second, last array row) followed by a movement of -1..2 rows, and with top_usable_row in -1..4, last cursor row "
+            "None/0..4, the application's own get_cursor_position between movement and call, 1..3 successive reported rows 0..5 and a nested call injected during the first or second query. "
             "distinct_nontrivial = distinct cases with non-empty extra, a fault, or a non-zero movement")
     exhaustive = {"quick": False, "thorough": True}
 
@@ -90,6 +90,28 @@ class C18(PureCheck):
                 faults = sorted(rng.sample(range(1, total), nf)) if nf else []
                 yield {"op": "query", "extra": enc.enc_text(ex), "row": r, "col": c, "csi8": csi8,
                        "trailing": enc.enc_text(tr), "faults": faults, "cb": int(k % 5 != 0)}
+        # reports that look like a modified function key (row 1 / 2, columns 2..8) behind other input
+        for col in range(2, 9):
+            for row in (1, 2):
+                for ex in ("x", "\x1b", "1;", "ab\n", ""):
+                    k += 1
+                    yield {"op": "query", "extra": enc.enc_text(ex), "row": row, "col": col, "csi8": k % 2,
+                           "trailing": enc.enc_text(trailings[k % 4]), "faults": [], "cb": int(k % 3 != 0)}
+        # the same window asked before: earlier queries with and without input ahead of their report (without a callback
+        # those raise ValueError, which the application caught); the callback attribute assigned after construction
+        for cb in (0, 1):
+            for prior in ([{"extra": enc.enc_text("zz"), "row": 3, "col": 4}], [{"extra": [], "row": 7, "col": 3}],
+                          [{"extra": enc.enc_text("q\x1b["), "row": 2, "col": 2}, {"extra": enc.enc_text("w"), "row": 5, "col": 5}]):
+                for ex in ("", "x", "\x1b[1"):
+                    for (r, c) in ((6, 2), (1, 1), (123, 10)):
+                        k += 1
+                        yield {"op": "query", "extra": enc.enc_text(ex), "row": r, "col": c, "csi8": 0,
+                               "trailing": enc.enc_text(trailings[k % 4]), "faults": [], "cb": cb, "prior": prior}
+            for ex in ("", "x", "ab\x1b", "\x1b[1;"):
+                for (r, c) in ((4, 2), (9, 10)):
+                    k += 1
+                    yield {"op": "query", "extra": enc.enc_text(ex), "row": r, "col": c, "csi8": k % 2,
+                           "trailing": enc.enc_text(trailings[k % 4]), "faults": [], "cb": cb, "cbset": 1}
         # characters outside ASCII typed ahead of the report, on utf-8 and latin-1 streams (7-bit reports on both)
         for ex in ("\xe9", "x\xe9", "\xe9\x1b[1", "\xff\xe9", "\u20ac", "a\u65e5"):
             for encname in ("utf-8", "latin-1"):
@@ -138,6 +160,15 @@ class C18(PureCheck):
                 for cr in sorted({0, min(1, n - 1), n - 1}):
                     for d in (-1, 0, 1, 2):
                         yield {"op": "vdiff", "top0": top0, "last0": 0, "rows": [], "nested": 0, "render": [n, cr], "d": d}
+        # the application looks at the cursor itself (get_cursor_position) between the movement and the call
+        for top0 in (0, 2, 4):
+            for last0 in (-1, 0, 2, 4):
+                for row in range(0, 6):
+                    for peek in (1, 2):
+                        yield {"op": "vdiff", "top0": top0, "last0": last0, "rows": [row, row, row], "nested": 0, "peek": peek}
+        for n in (1, 3, 6):
+            for d in (-1, 0, 1, 3):
+                yield {"op": "vdiff", "top0": 1, "last0": 0, "rows": [], "nested": 0, "render": [n, n - 1], "d": d, "peek": 1}
         for (top0, last0, rows) in ((5, 5, [8, 8, 8]), (0, 2, [5, 5, 5]), (3, 4, [1, 1, 1]), (-1, 0, [3, 4, 4]), (2, -1, [4, 6, 6]), (1, 3, [3, 3, 3])):
             for k in range(1, 41):
                 yield {"op": "vdiff", "top0": top0, "last0": last0, "rows": rows, "nested": 0, "nested_line": k}
@@ -163,8 +194,27 @@ class C18(PureCheck):
                 ins.faults = set(inp["faults"])
                 ins.fault_kinds = inp.get("kinds", [])
                 calls = []
-                win = CursorAwareWindow(out_stream=out, in_stream=ins,
-                                        extra_bytes_callback=(lambda b: calls.append(list(b))) if inp["cb"] else None)
+                cb = (lambda b: calls.append(list(b)))
+                if inp.get("cbset"):
+                    # the public attribute is assigned after construction: a window built without a callback gets one
+                    # later, or the other way round
+                    win = CursorAwareWindow(out_stream=out, in_stream=ins, extra_bytes_callback=None if inp["cb"] else cb)
+                    win.extra_bytes_callback = cb if inp["cb"] else None
+                else:
+                    win = CursorAwareWindow(out_stream=out, in_stream=ins, extra_bytes_callback=cb if inp["cb"] else None)
+                for pr in inp.get("prior", []):
+                    # earlier queries on the same window (their outcome - a position, or ValueError for input ahead of the
+                    # report when there is no callback - is not recorded); nothing of them is left in the stream
+                    saved = ins.chars
+                    ins.chars = list(enc.dec_text(pr["extra"]) + "\x1b[%d;%dR" % (pr["row"], pr["col"]))
+                    try:
+                        win.get_cursor_position()
+                    except Exception:  # noqa
+                        pass
+                    ins.chars = saved
+                    ins.consumed = 0
+                    del calls[:]
+                    out.take()
                 try:
                     r = win.get_cursor_position()
                     ev["k"], ev["t"], ev["ret"] = "ok", "", [r[0], r[1]]
@@ -202,6 +252,10 @@ class C18(PureCheck):
                 def write(s, _w=orig_write):
                     n = s.count("\x1b[6n")
                     for _ in range(n):
+                        if state.get("peek"):
+                            # the application's own look at the cursor: answered with where the cursor is now
+                            ins.chars.extend(f"\x1b[{rows[0] + 1};1R")
+                            continue
                         state["q"] += 1
                         row = rows[min(state["q"], len(rows)) - 1]
                         ins.chars.extend(f"\x1b[{row + 1};1R")
@@ -239,6 +293,13 @@ class C18(PureCheck):
                                     sys.settrace(tracer)
                         return tracer
                     sys.settrace(tracer)
+                if inp.get("peek"):
+                    # between the movement and the call the application asks where the cursor is, itself (once or twice)
+                    state["peek"] = True
+                    for _ in range(inp["peek"]):
+                        win.get_cursor_position()
+                    state["peek"] = False
+                    out.take()
                 try:
                     ev["ret"] = win.get_cursor_vertical_diff()
                     ev["k"], ev["t"] = "ok", ""
